@@ -22,6 +22,9 @@ ALLOW = ("#[allow(unsafe_code, single_use_lifetimes, unused_lifetimes, dead_code
          "clippy::unwrap_used, clippy::semicolon_inside_block, clippy::mixed_read_write_in_expression)]")
 
 
+SNAP = {}
+
+
 def harness_files():
     """Return {src-relative path: absolute harness path} for every harness file present."""
     out = {}
@@ -42,7 +45,7 @@ def module_path(rel):
     return "::".join(parts + ["verif_kani"])
 
 
-def make_scratch(run_id, files):
+def make_scratch(run_id, files, patches=()):
     """Copy the repo working tree and append the harness modules for `files` (src-relative)."""
     dst = os.path.join(CACHE, "runs", run_id)
     if os.path.exists(dst):
@@ -50,6 +53,9 @@ def make_scratch(run_id, files):
     os.makedirs(dst)
     crate = os.path.join(dst, "crate")
     subprocess.run(["rsync", "-a", "--exclude", "/target", "--exclude", "/.git", REPO + "/", crate + "/"], check=True)
+    # development aid (--patch): apply seeded changes to the SCRATCH COPY only; /repo is never touched
+    for pf in patches:
+        subprocess.run(["patch", "-p1", "-s", "-i", os.path.abspath(pf)], cwd=crate, check=True)
     # 1. Cargo.toml: drop dev-deps and examples, redirect tracing to the shim
     ct = open(os.path.join(crate, "Cargo.toml")).read()
     ct = re.sub(r"(?ms)^\[dev-dependencies\].*?(?=^\[)", "", ct)
@@ -69,8 +75,10 @@ def make_scratch(run_id, files):
     t = open(lib).read()
     open(lib, "w").write("#![cfg_attr(kani, feature(allocator_api))]\n" + t)
     # 2. append harness modules (cfg(kani) only)
-    hf = harness_files()
-    common = os.path.join(VERIF, "harness", "common.rs")
+    # the harness sources are snapshotted into the run directory, so edits under harness/ during a run do not matter
+    hsnap = os.path.join(dst, "harness")
+    shutil.copytree(HARNESS_DIR, hsnap)
+    hf = {rel: os.path.join(hsnap, rel) for rel in harness_files()}
     for rel in sorted(set(files) | {"lib.rs"}):
         if rel not in hf:
             raise SystemExit("no harness file for " + rel)
@@ -80,6 +88,7 @@ def make_scratch(run_id, files):
             raise FileNotFoundError(src)
         with open(src, "a") as f:
             f.write("\n#[cfg(kani)] %s pub(crate) mod verif_kani { include!(\"%s\"); }\n" % (ALLOW, hf[rel]))
+    SNAP[dst] = hf
     return dst, crate
 
 
